@@ -65,6 +65,7 @@ type unit struct {
 	kf      *knownFindings
 	ghostTypes map[string]types.Type
 	rawBoxed bool
+	lemma   *specFun
 	returns int
 }
 
@@ -212,6 +213,12 @@ func (s *state) sliceFacts(t types.Type, S []string, ls []leaf) {
 				s.pc = append(s.pc, fmt.Sprintf("(<= %s %s)", ln, cp))
 			} else {
 				s.pc = append(s.pc, fmt.Sprintf("(bvsle %s %s)", ln, cp))
+			}
+			// a nil slice has no elements
+			if i >= 3 && strings.HasSuffix(ls[i-3].path, ".ref") {
+				if _, lit := intLit(S[i-3]); !lit {
+					s.pc = append(s.pc, fmt.Sprintf("(=> (= %s 0) (= %s %s))", S[i-3], cp, s.u.m.offConst(0)))
+				}
 			}
 		}
 	}
